@@ -1,5 +1,6 @@
 pub mod c14;
 pub mod c15;
+pub mod c17;
 pub mod c19;
 
 use crate::driver::PropDef;
@@ -8,6 +9,7 @@ pub fn lookup(id: &str) -> Option<&'static PropDef> {
     match id {
         "C14" => Some(&c14::DEF),
         "C15" => Some(&c15::DEF),
+        "C17" => Some(&c17::DEF),
         _ => None,
     }
 }
